@@ -90,6 +90,7 @@ type expectEv struct {
 	data  []byte
 	tick  int64
 	pc    bool // a program change (filtered out by Only(ControlChangeMsg))
+	note  bool // a note message (filtered out by both Only variants)
 }
 
 // build creates the file; channel messages are unique (channel = track,
@@ -119,24 +120,41 @@ func build(ns []int, pat string, withMeta bool) ([]byte, [][]expectEv) {
 				tick += 7
 				pm := midi.ProgramChange(uint8(tr), uint8(i))
 				t.Add(7, pm)
-				exp[tr] = append(exp[tr], expectEv{tr, pm, tick, true})
+				exp[tr] = append(exp[tr], expectEv{tr, pm, tick, true, false})
 			}
 			d := patterns[pat](tr, i, n)
 			tick += int64(d)
 			m := midi.ControlChange(uint8(tr), uint8(i), uint8(100+tr))
 			t.Add(d, m)
-			exp[tr] = append(exp[tr], expectEv{tr, m, tick, false})
+			exp[tr] = append(exp[tr], expectEv{tr, m, tick, false, false})
 			if withMeta && i%5 == 3 {
 				// the very same message once more on the same tick (a doubled controller value)
 				t.Add(0, m)
-				exp[tr] = append(exp[tr], expectEv{tr, m, tick, false})
+				exp[tr] = append(exp[tr], expectEv{tr, m, tick, false, false})
+			}
+			if withMeta && i%6 == 5 {
+				// a note of no length: note-on and its note-off (once as note-on with
+				// velocity 0) on the tick of the controller before them
+				on := midi.NoteOn(uint8(tr), uint8(i), 90)
+				off := midi.NoteOff(uint8(tr), uint8(i))
+				if i%12 == 11 {
+					off = midi.NoteOn(uint8(tr), uint8(i), 0)
+				}
+				t.Add(0, on)
+				t.Add(0, off)
+				exp[tr] = append(exp[tr], expectEv{tr, on, tick, false, true}, expectEv{tr, off, tick, false, true})
 			}
 			if withMeta && i%3 == 1 {
 				t.Add(0, smf.MetaText("x"))
 				if tr == 0 && i == 4 {
 					// layout 0: second of two changes; 1: the only change, faster
 					// than the default; 2: the only change, slower
-					t.Add(0, smf.MetaTempo([]float64{200, 200, 47, 50}[tempoLayout]))
+					if tempoLayout == 2 {
+						// slow and not a round number of beats per minute: 16689842 us per quarter
+						t.Add(0, smf.MetaUndefined(0x51, []byte{0xFE, 0xAA, 0xB2}))
+					} else {
+						t.Add(0, smf.MetaTempo([]float64{200, 200, 47, 50}[tempoLayout]))
+					}
 				}
 				if tr == 1 && i == 1 && tempoLayout == 3 {
 					// layout 3: tempo events in two tracks - track 0 is fast from the
@@ -243,12 +261,23 @@ func playVariant(data []byte, expAll [][]expectEv, ns []int, pat string, withMet
 		exp = make([][]expectEv, len(expAll))
 		for t := range expAll {
 			for _, e := range expAll[t] {
-				if !e.pc {
+				if !e.pc && !e.note {
 					exp[t] = append(exp[t], e)
 				}
 			}
 		}
 		pat += "+only-filter"
+	}
+	if both {
+		// controllers and program changes are wanted: the notes are not
+		exp = make([][]expectEv, len(expAll))
+		for t := range expAll {
+			for _, e := range expAll[t] {
+				if !e.note {
+					exp[t] = append(exp[t], e)
+				}
+			}
+		}
 	}
 	if twice {
 		pat += "+second-playback"
